@@ -150,6 +150,15 @@ type blockStage struct {
 	parked []*flushPark
 	off    bool
 	pass   bool // free-running: flushes succeed without parking
+	cens   bool // census: record every flush (which group object flushes what) and fail it, so nothing is deleted
+	census []flushRec
+}
+
+// flushRec is one flush seen during the census tick at the end of a case.
+type flushRec struct {
+	key    string
+	id     string // notify.AggrGroupID: identifies the aggregation-group OBJECT
+	alerts []DVer
 }
 
 func (b *blockStage) Exec(ctx context.Context, _ *slog.Logger, as ...*alert.Alert) (context.Context, []*alert.Alert, error) {
@@ -159,6 +168,15 @@ func (b *blockStage) Exec(ctx context.Context, _ *slog.Logger, as ...*alert.Aler
 	if b.off {
 		b.mu.Unlock()
 		return ctx, nil, errors.New("harness shutting down")
+	}
+	if b.cens {
+		rec := flushRec{key: gk, id: id}
+		for _, a := range as {
+			rec.alerts = append(rec.alerts, dverOf(a))
+		}
+		b.census = append(b.census, rec)
+		b.mu.Unlock()
+		return ctx, nil, errors.New("census: flush recorded, not delivered")
 	}
 	if b.pass {
 		b.mu.Unlock()
@@ -208,6 +226,24 @@ func (b *blockStage) passThrough() {
 	for _, p := range ps {
 		p.ch <- true
 	}
+}
+
+// startCensus: from now on every flush is recorded and failed; parked flushes are released as failed.
+func (b *blockStage) startCensus() {
+	b.mu.Lock()
+	b.cens = true
+	ps := b.parked
+	b.parked = nil
+	b.mu.Unlock()
+	for _, p := range ps {
+		p.ch <- false
+	}
+}
+
+func (b *blockStage) censusRecords() []flushRec {
+	b.mu.Lock()
+	defer b.mu.Unlock()
+	return append([]flushRec(nil), b.census...)
 }
 
 func (b *blockStage) releaseAll() {
@@ -480,6 +516,19 @@ func (r *runner) do(a Act) bool {
 		r.scan()
 		r.limAt[w] = r.c.Steps[len(r.c.Steps)-1].Obs.Limited
 		return true
+	case "Wrun": // worker w receives the next update if it is idle, then runs until it is back at the channel
+		progressed := false
+		for guard := 0; guard < 40 && !r.unreal; guard++ {
+			_, busy := r.bind[a.W]
+			if !busy && (progressed || r.next >= len(r.c.Updates)) {
+				break
+			}
+			if !r.do(Act{Kind: "W", W: a.W}) {
+				break
+			}
+			progressed = true
+		}
+		return progressed
 	case "Fdone":
 		fl := r.stage.list()
 		if a.I < 0 || a.I >= len(fl) {
@@ -633,6 +682,7 @@ func RunCase(t *testing.T, c *DCase, rnd *vh.Rand) (viol []vh.Violation, tags ma
 		if done := r.rig.Processed(); done != uint64(published) {
 			r.violate("insert-lost", fmt.Sprintf("%d alerts were published but %d were processed by the dispatcher after the run drained", published, done))
 		}
+		defer r.censusOracle()
 		// final oracle: every firing alert whose last version is firing sits in each of its groups (unless limited)
 		if end != nil {
 			o := end
@@ -650,6 +700,57 @@ func RunCase(t *testing.T, c *DCase, rnd *vh.Rand) (viol []vh.Violation, tags ma
 		}
 	})
 	return r.viol, r.tags
+}
+
+// censusOracle: one more timer tick after the case, with every hook released. Every aggregation group that is still
+// RUNNING flushes what it holds; a running group must be the group Dispatcher.Groups shows under its key, with the
+// same alerts. A group that flushes although the map has no (or another) group under its key is an orphan: it keeps
+// notifying versions that later updates can no longer reach (running-group-not-in-map); two objects flushing one
+// key is a split.
+func (r *runner) censusOracle() {
+	r.rig.S.ReleaseAll()
+	r.stage.passThrough()
+	synctest.Wait()
+	view := r.observe()
+	r.stage.startCensus()
+	time.Sleep(tick)
+	synctest.Wait()
+	ids := map[string]string{}
+	for _, f := range r.stage.censusRecords() {
+		r.tags["census-flush"]++
+		if other, ok := ids[f.key]; ok && other != f.id {
+			r.violate("group-split", "two running aggregation groups flush the same group key "+f.key)
+		}
+		ids[f.key] = f.id
+		k, ok := r.keyOf[f.key]
+		if !ok {
+			continue
+		}
+		var shown *DGroup
+		for i := range view.View {
+			if view.View[i].Key == k {
+				shown = &view.View[i]
+			}
+		}
+		held := func(as []DVer) string {
+			xs := []string{}
+			for _, a := range as {
+				xs = append(xs, fmt.Sprintf("ls%d#%d", a.LS, a.Tag))
+			}
+			sort.Strings(xs)
+			return fmt.Sprint(xs)
+		}
+		switch {
+		case shown == nil:
+			r.violate("running-group-not-in-map", fmt.Sprintf("a running aggregation group with key %s still flushes %s, but Dispatcher.Groups shows no group under that key: it was removed from the group map while alive, later updates cannot reach it",
+				f.key, held(f.alerts)))
+		case held(shown.Alerts) != held(f.alerts):
+			r.violate("running-group-not-in-map", fmt.Sprintf("a running aggregation group with key %s flushes %s while the group the map holds under that key has %s: an orphaned group keeps notifying versions that later updates did not reach",
+				f.key, held(f.alerts), held(shown.Alerts)))
+		default:
+			r.tags["census-ok"]++
+		}
+	}
 }
 
 // ---- Coq rendering (type case of AM.Run.DConcRun) ----
@@ -722,6 +823,76 @@ func GenCase(r *vh.Rand) DCase {
 		c.Updates = append(c.Updates, DUpd{LS: ls, Resolved: r.Chance(1, 2)})
 	}
 	return c
+}
+
+// interleavings of two ordered sequences
+func interleavings(a, b []Act) [][]Act {
+	if len(a) == 0 {
+		return [][]Act{append([]Act(nil), b...)}
+	}
+	if len(b) == 0 {
+		return [][]Act{append([]Act(nil), a...)}
+	}
+	var out [][]Act
+	for _, r := range interleavings(a[1:], b) {
+		out = append(out, append([]Act{a[0]}, r...))
+	}
+	for _, r := range interleavings(a, b[1:]) {
+		out = append(out, append([]Act{b[0]}, r...))
+	}
+	return out
+}
+
+// DirectedCases: the window "a re-fire is ingested while maintenance is between examining a destroyed group and
+// deleting it". fire (-> resolve) -> resolved flush destroys the group -> [worker: receive re-fire, Load, failed
+// insert + new group, CompareAndSwap] interleaved in every order with [maintenance: sees destroyed, stop, delete]
+// -> a later update of the same / a sibling label set -> tick. 35 interleavings per variant.
+func DirectedCases() []DCase {
+	var out []DCase
+	worker := []Act{{Kind: "W", W: 1}, {Kind: "W", W: 1}, {Kind: "W", W: 1}, {Kind: "W", W: 1}}
+	maint := []Act{{Kind: "Tick"}, {Kind: "Mgo"}, {Kind: "Mgo"}}
+	for variant := 0; variant < 4; variant++ {
+		var ups []DUpd
+		var prefix []Act
+		if variant%2 == 0 {
+			ups = []DUpd{{LS: 0, Resolved: true}}
+			prefix = []Act{{Kind: "Wrun", W: 0}}
+		} else {
+			ups = []DUpd{{LS: 0}, {LS: 0, Resolved: true}}
+			prefix = []Act{{Kind: "Wrun", W: 0}, {Kind: "Wrun", W: 0}}
+		}
+		prefix = append(prefix, Act{Kind: "Tick"}, Act{Kind: "Fdone", OK: true}) // resolved flush: group destroyed
+		ups = append(ups, DUpd{LS: 0})                                           // the re-fire
+		if variant < 2 {
+			ups = append(ups, DUpd{LS: 0, Resolved: true}) // later update: the resolve
+		} else {
+			ups = append(ups, DUpd{LS: 1}) // later update: a sibling alert of the same group
+		}
+		for _, mid := range interleavings(worker, maint) {
+			script := append(append([]Act(nil), prefix...), mid...)
+			script = append(script, Act{Kind: "Wrun", W: 0}, Act{Kind: "Tick"})
+			out = append(out, DCase{W: 2, Config: 0, Updates: append([]DUpd(nil), ups...), Script: script, Note: "directed: re-fire vs maintenance"})
+		}
+	}
+	return out
+}
+
+// RunDirectedT runs DirectedCases on the real dispatcher (same result shape as RunT).
+func RunDirectedT(t *testing.T) (coqCases []string, jsonCases []any, violations []vh.Violation, stats map[string]int) {
+	stats = map[string]int{}
+	for _, c := range DirectedCases() {
+		c := c
+		viol, tags := RunCase(t, &c, nil)
+		coqCases = append(coqCases, CoqCase(&c))
+		jsonCases = append(jsonCases, c)
+		violations = append(violations, viol...)
+		for k, v := range tags {
+			stats[k] += v
+			stats["cases-with:"+k]++
+		}
+		stats["cases"]++
+	}
+	return coqCases, jsonCases, violations, stats
 }
 
 // T must be set by the calling test before Run (testing/synctest needs a *testing.T).
